@@ -239,3 +239,34 @@ SPEC("pane.classes", "PaneConverter.collect_errors",
 
 def is_error_leaf_any(node, actual):
     return isinstance(node, WrongTypeError) and node.actual is actual
+
+
+# ---------------------------------------------------------------------------------------------
+# output (C15, C05): configured layout, each field's output name, excluded fields omitted
+def n_out(self):
+    return count_where(zlen(slen(self.fields), slen(self.field_converters)), lambda i: not sat(self.fields, i).exclude)
+
+
+def out_pos(self, j):
+    return nth_where(zlen(slen(self.fields), slen(self.field_converters)), lambda i: not sat(self.fields, i).exclude, j)
+
+
+def field_ser(self, val, i):
+    return ser(sat(self.field_converters, i), dynattr(val, sat(self.fields, i).name))
+
+
+SPEC("pane.classes", "PaneConverter.into_data",
+     shapes=PANE_SHAPES,
+     requires=[lambda self, val: wf_Pane(self), lambda self, val: isinstance(val, PaneBase)],
+     assumes=[lambda self, val: forall(range(slen(self.fields)), lambda i: hashable(sat(self.fields, i).out_name))],
+     note="assumed: output names are strings (hashable)",
+     ensures=[(lambda self, val, result: implies(self.opts.out_format == "tuple",
+               slen(result) == n_out(self)
+               and forall(range(n_out(self)), lambda j: sat(result, j) == field_ser(self, val, out_pos(self, j)))), ["C15", "C05"], "ser-tuple"),
+              (lambda self, val, result: implies(self.opts.out_format == "struct" and self.opts.out_format != "tuple",
+               forall(range(slen(self.fields)), lambda i: implies(not truthy(sat(self.fields, i).exclude),
+                                                                  mhas(result, sat(self.fields, i).out_name)))
+               and forall_val(lambda k: implies(mhas(result, k), exists(range(slen(self.fields)), lambda i:
+                                                not truthy(sat(self.fields, i).exclude) and sat(self.fields, i).out_name == k
+                                                and mget(result, k) == field_ser(self, val, i))))), ["C15", "C05"], "ser-struct")],
+     raises=(lambda self, val, exc: exc_is(exc, ValueError), ["C15"]))
